@@ -209,4 +209,52 @@ REG = {
             fuzz("ext", "FuzzC10Extractor", 120),
         ],
     },
+    "C06": {
+        "level": "exploration",
+        "technique": "model-based testing of conversation histories (rapid scenarios executed against a live service.GoJT808 over loopback TCP in a child process; pure replies-model oracle over the recorded history with one global sequence counter)",
+        "level_text": "1..4 concurrent connections each run a generated conversation (every reply-bearing terminal ID, responses, unsupported IDs, both header versions, serials around 0/65535, sub-packaged messages in shuffled order, frames pipelined/coalesced/one per write, matching and non-matching auth codes). The frames each terminal receives must be exactly the model's replies - type, addressing, echoed serial/ID/result, body, order, consecutive platform serials from 0 - and every handled message must have exactly one read callback that finished before its reply reached the terminal and every reply exactly one write callback carrying the bytes sent. Absence of replies is decided by a FIFO sentinel heartbeat, never by sleeping.",
+        "level_note": "The reply to a completed sub-packaged transfer is awaited before the terminal sends more (its position among replies of the same read is otherwise unobservable). The read callback sleeps 1 ms in most scenarios so a reply written before the callback would be seen first. Missed deadlines are soft evidence (re-run, 2 of 3). Serial wrap-around over 65536 replies is part of the thorough tier (TestC06Wrap).",
+        "rule": "rapid conversations; non-trivial = some connection has >= 3 reply-bearing requests and >= 1 message that must not be answered",
+        "assumptions": ["loopback TCP; child process per scenario; reference frame codec"],
+        "required_buckets": {"any": ["msg_0100", "msg_0102", "msg_0801", "msg_1212", "msg_1003", "auth_bad", "auth_ok", "kind_noreply", "kind_unsupported", "sub_packaged", "hdr2019", "handlers_parse_all", "terminals_3"]},
+        "parts": [
+            rapid("sys", "TestC06", 25, 500, qs=12, ts=16),
+        ],
+    },
+    "C12": {
+        "level": "exploration",
+        "technique": "model-based testing of concurrent command histories (rapid scenarios in a child process: scripted terminals answering immediately / late / twice / with a wrong serial / never / out of order while 1..8 SendActiveMessage calls are outstanding; commands-model oracle over the history)",
+        "level_text": "Each call must return exactly once; its command frame must appear exactly once, on the owning terminal's socket only, with a platform serial no other frame uses (all server frames on a connection are numbered consecutively); if the terminal answered that serial in time the returned message is that very response (bytes and PlatformSeq), never another call's; unanswered calls return the timeout error no earlier than the timeout and (soft) no later than timeout + 3 s; plain traffic sent in between is still answered.",
+        "level_note": "0x1003 is excluded (its body carries no serial). At most 3 calls target one terminal at the same instant in this property (more is C13's stress). Timing-dependent verdicts are soft evidence (re-run, 2 of 3).",
+        "rule": "rapid call sets x terminal behaviours; non-trivial = >= 2 calls outstanding on one terminal and (held responses released in reverse order or >= 3 calls)",
+        "assumptions": ["loopback TCP; child process per scenario"],
+        "required_buckets": {"any": ["behaviour_answer", "behaviour_hold", "behaviour_dup", "behaviour_wrong_serial", "behaviour_ignore", "behaviour_late", "concurrent_calls_one_terminal", "responses_out_of_order"]},
+        "parts": [
+            rapid("sys", "TestC12", 10, 300, qs=12, ts=16),
+        ],
+    },
+    "C13": {
+        "level": "fault_enumeration",
+        "technique": "fault enumeration by generated scenarios: six disconnect points (before join, with q queued commands, on receiving a command, during a slow write callback, around timer expiry, during a duplicate-key refusal) x close/reset x q in 0..6 x timeouts x seeded micro-delays, each in a fresh child process; oracle = process alive + every call returned within timeout + slack + a fresh terminal can be commanded afterwards",
+        "level_text": "Hard evidence: the child must exit normally and print its history (no 'send on closed channel', no deadlock). Soft evidence (re-run, 2 of 3): every in-flight SendActiveMessage call returned exactly once within timeout + 3 s with a response or an error; afterwards a fresh terminal (optionally re-using the victim's key) joins, is commanded and answers.",
+        "level_note": "Schedule search, not schedule enumeration: the harness owns terminals, callers, fault points and barrier-released micro-delays but not the Go scheduler; a window narrower than the injected jitter can be missed.",
+        "rule": "rapid over (fault point, q, timeouts, close mode, delays); non-trivial = at least one call in flight at the instant of the fault",
+        "assumptions": ["loopback TCP; child process per scenario"],
+        "required_buckets": {"any": ["fault_before_join", "fault_close_with_queued", "fault_close_on_command", "fault_slow_write_callback", "fault_close_at_timeout", "fault_duplicate_key", "close_rst", "q_6", "key_reused_after_fault"]},
+        "parts": [
+            rapid("sys", "TestC13", 25, 600, qs=12, ts=16),
+        ],
+    },
+    "C18": {
+        "level": "exploration",
+        "technique": "dynamic race detection under generated schedules: the C06/C12/C13 scenario generators run in a child built with -race; oracle = race reports (or concurrent-map fatal errors) naming a frame of the repository, de-duplicated by the pair of top repository frames",
+        "level_text": "Every scenario runs a live server under the Go race detector with several connections, pipelined frames, commands in flight and disconnect faults; any report whose stacks contain a repository frame is a violation (hard evidence even if the schedule cannot be reproduced; the report is the replay file's error text).",
+        "level_note": "The detector sees only races that occur in an executed schedule; absence of a report is not absence of a race. User-callback code in the harness is synchronised and, under -race, parses only into fresh model values (sharing a model object between the read callback and the writer's ReplyBody is the callback author's choice).",
+        "rule": "rapid scenarios of three kinds; non-trivial = reader and writer of a connection demonstrably active together (a conversation, a command in flight, or a fault with q >= 1)",
+        "assumptions": ["Go race detector (happens-before, executed schedules only)"],
+        "required_buckets": {"any": ["scenario_c06", "scenario_c12", "scenario_c13"]},
+        "parts": [
+            rapid("sys", "TestC18", 12, 300, qs=12, ts=16, race=True),
+        ],
+    },
 }
